@@ -500,9 +500,20 @@ def setter_oracle(im, spec):
 
 # ------------------------------------------------------------------------------------------ property oracles on the implementation
 def oracles(im, spec, spellings, rng, workdir, with_ckpt):
-    """-> list of (key, what, replay-extra).  Independent of the Coq model."""
+    """-> list of (key, what, replay-extra).  Independent of the Coq model.  An exception nobody documents, raised by
+    the implementation on a generated input, is itself a finding (that input is the replay); findings made before it are kept."""
     out = []
+    try:
+        _oracles(im, spec, spellings, rng, workdir, with_ckpt, out)
+    except Exception as e:  # noqa
+        import traceback
+        where = [ln.strip() for ln in traceback.format_exc().strip().split("\n") if "/autode/" in ln]
+        out.append((f"Reaction|unexpected-exception:{type(e).__name__}", f"{type(e).__name__}: {e}" +
+                    (f" at {where[-1][:140]}" if where else ""), {}))
+    return out
 
+
+def _oracles(im, spec, spellings, rng, workdir, with_ckpt, out):
     def fail(key, what, **extra):
         out.append((key, what, dict(extra)))
     out += setter_oracle(im, spec)
@@ -590,9 +601,17 @@ def oracles(im, spec, spellings, rng, workdir, with_ckpt):
                     fail("Reaction.delta|unit-dependent", f"delta({s!r}) = {a} but {b} after re-expressing the same energies in other units",
                          spelling=s, reexpressed=spec2)
     # --- swap symmetry (non-barrier types) and type after the swap
-    rxn.switch_reactants_products()
+    try:
+        rxn.switch_reactants_products()
+        swapped = True
+    except Exception as e:  # noqa
+        swapped = False
+        fail("Reaction.switch_reactants_products|raises",
+             f"switch_reactants_products of a {nr}->{np_} reaction raised {type(e).__name__}: {e}; the reaction is left with "
+             f"{len(rxn.reacs)} reactants and {len(rxn.prods)} products, type {getattr(rxn.type, 'name', None)!r}")
+        _, rxn = im.build(spec)
     for s, (kind, ts) in DOC.items():
-        if ts:
+        if ts or not swapped:
             continue
         a, b = base[s], im.delta(rxn, s)
         ok = a[0] == b[0] and (a[0] != "val" or relclose(b[1], -a[1]))
@@ -601,7 +620,9 @@ def oracles(im, spec, spellings, rng, workdir, with_ckpt):
     want_t = TYPE_TABLE.get((np_, nr), "<unsupported>")
     before_t = tname
     tname = None if rxn.type is None else rxn.type.name
-    if tname != want_t and tname != before_t:
+    if not swapped:
+        pass
+    elif tname != want_t and tname != before_t:
         fail("Reaction.switch_reactants_products|type-changed-wrongly",
              f"after switch_reactants_products the reaction is {np_}->{nr}, its type went from {before_t!r} to {tname!r} "
              f"(classification by the numbers of molecules gives {want_t!r})")
@@ -609,7 +630,12 @@ def oracles(im, spec, spellings, rng, workdir, with_ckpt):
         fail("Reaction.switch_reactants_products|type-not-reclassified",
              f"after switch_reactants_products the reaction is {np_}->{nr} but its type is still {tname!r} "
              f"(classification by the numbers of molecules gives {want_t!r})")
-    rxn.switch_reactants_products()
+    if swapped:
+        try:
+            rxn.switch_reactants_products()
+        except Exception as e:  # noqa
+            fail("Reaction.switch_reactants_products|raises", f"switching a {nr}->{np_} reaction back raised {type(e).__name__}: {e}")
+            _, rxn = im.build(spec)
     for s in DOC:
         if im.delta(rxn, s) != base[s]:
             fail("Reaction.switch_reactants_products|not-involutive", f"delta({s!r}) differs after switching twice", spelling=s)
@@ -696,9 +722,19 @@ def roundtrip_oracle(im, rxn, spellings, workdir):
             r2.load(path)
         else:
             r2 = im.Reaction.from_checkpoint(path)
-        after = im.observe(r2, spellings)
-        if after != before:
-            bad = [k for k in before if before[k] != after.get(k)]
+        try:                                    # the reloaded reaction must be usable like the saved one
+            after = im.observe(r2, spellings)
+            _ = (r2.solvent, str(r2), r2.is_barrierless, r2.ts)
+            r2.switch_reactants_products()
+            r2.switch_reactants_products()
+            again = im.observe(r2, spellings)
+        except Exception as e:  # noqa
+            out.append(("Reaction.save/load|reloaded-unusable", f"after save + {how} of a reaction with solvent "
+                        f"{getattr(rxn.solvent, 'name', None)!r}: using the reloaded reaction (solvent / delta / switch) raised "
+                        f"{type(e).__name__}: {e}", {"how": how}))
+            continue
+        if after != before or again != before:
+            bad = [k for k in before if before[k] != after.get(k) or before[k] != again.get(k)]
             out.append(("Reaction.save/load|roundtrip", f"after save + {how}: {bad[0]} was {before[bad[0]]}, now {after.get(bad[0])}",
                         {"how": how}))
     os.remove(path)
@@ -873,8 +909,11 @@ def apply_op(im, rxn, o, path):
         rxn.switch_reactants_products()
     elif o[0] == "saveload":
         rxn.save(path)
-        rxn = im.Reaction()
-        rxn.load(path)
+        if len(o) > 1 and o[1] == "from_checkpoint":
+            rxn = im.Reaction.from_checkpoint(path)
+        else:
+            rxn = im.Reaction()
+            rxn.load(path)
     elif o[0] == "set_ts":
         rxn.ts = None if o[1] is None else im.ts(o[1], "tsx")
     elif o[0] == "set_ts_invalid":
@@ -910,7 +949,7 @@ def gen_ops(rng, im, spec):
         if k < 0.25:
             ops.append(["switch"])
         elif k < 0.45:
-            ops.append(["saveload"])
+            ops.append(["saveload", rng.choice(["load", "from_checkpoint"])])
         elif k < 0.58:
             ops.append(["set_ts", None])
         elif k < 0.70:
@@ -1036,7 +1075,15 @@ def correspondence(ctx, im, specs, spell_lists, full, smiles=()):
         checks.append(f"check_state r {st0}")
         prev = "r"
         for k, o in enumerate(ops):
-            rxn = apply_op(im, rxn, o, path)
+            try:
+                rxn = apply_op(im, rxn, o, path)
+                _ = rxn.solvent
+            except Exception as e:  # noqa  (the model has no failing history operation)
+                checks.append("false")
+                ctx.hist("delta+history", f"op {o[0]} raised {type(e).__name__}")
+                ops = ops[:k + 1]
+                nh = 0
+                break
             ctx.hist("delta+history", "op " + o[0] + ("(None)" if o[0] == "set_ts" and o[1] is None else ""))
             name = f"h{k}"
             lets.append(f"let {name} := run_op {coq_op(o)} {prev} in")
@@ -1048,7 +1095,8 @@ def correspondence(ctx, im, specs, spell_lists, full, smiles=()):
             hp = [(s, im.delta(rxn, s)) for s in sub]
             checks.append(coq_deltas(spl, name, hp))
             nh = len(hp)
-        tname = "None" if rxn.type is None else f"(Some {coq_string(rxn.type.name)})"
+        rt = getattr(rxn, "type", None)
+        tname = "None" if rt is None else f"(Some {coq_string(rt.name)})"
         checks.append(f"opt_string_eqb (rtype {prev}) {tname}")
         add(f"(let r := {coq_built(spec)} in {' '.join(lets)}\n   {coq_deltas(spl, 'r', pairs)} && " + " && ".join(checks) + ")",
             {"kind": "delta", "spec": spec, "spellings": spellings, "ops": ops},
@@ -1190,7 +1238,12 @@ def run_oracles(ctx, im, specs, spell_lists, full, smiles=()):
                             f"with ' double dagger' {res[2]}", {"kind": "dagger", "prefix": pre, "spec": probe_spec(im), "spellings": [pre + "‡", pre + " ddagger", pre + " double dagger"]})
     for idx, (spec, spellings) in enumerate(zip(specs, spell_lists)):
         with_ckpt = (idx % (4 if full else 7) == 0)
-        res = oracles(im, spec, spellings, ctx.rng, os.path.join(ctx.work, f"ck{idx}"), with_ckpt)
+        try:
+            res = oracles(im, spec, spellings, ctx.rng, os.path.join(ctx.work, f"ck{idx}"), with_ckpt)
+        except Exception as e:  # noqa  an exception nobody documents, on a generated input: that input is the replay
+            import traceback
+            res = [(f"Reaction|unexpected-exception:{type(e).__name__}", f"{type(e).__name__}: {e} at " +
+                    traceback.format_exc().strip().split("\n")[-3].strip()[:160], {})]
         ctx.count("impl-oracle", json.dumps(spec, sort_keys=True), nontrivial=bool(spec["reacs"] or spec["prods"]))
         if with_ckpt:
             ctx.count("checkpoint", json.dumps(spec, sort_keys=True), nontrivial=bool(spec["reacs"] or spec["prods"]))
